@@ -196,7 +196,7 @@ fn real_vs_virtual(ctx: &Ctx, seed: u64, n: usize) {
 
 pub fn run(tier: Tier, seed: u64) -> i32 {
     let ctx = Ctx::new("C07", tier, seed, "exploration");
-    let n = tier.pick(6_000, 100_000);
+    let n = tier.pick(6_000, 400_000);
     let shards = 64;
     par_shards(shards, crate::util::n_threads(), |sh| {
         let mut b = Batch::default();
